@@ -84,7 +84,13 @@ static Config gen_config(Rng &r)
     c.meta.push_back('\0');
     if(k == K_O || k == K_AO) {
         int no = (int)r.range(2, 6);
-        static const char *SY[] = {"sine", "saw", "square", "noise", "tri", "pulse"};
+        // symbols: names, or numerals (rOptions(1,2,4,8)): the symbol "4" means the entry mapped to it, not the number 4
+        static const char *SY_NAMES[] = {"sine", "saw", "square", "noise", "tri", "pulse"};
+        static const char *SY_NUMS[] = {"1", "2", "4", "8", "16", "0"};
+        static const char *SY_MIXED[] = {"-12", "0", "12", "off", "3", "24"};
+        int symkind = (int)r.below(5);
+        const char **SY = symkind == 3 ? SY_NUMS : symkind == 4 ? SY_MIXED : SY_NAMES;
+        if(symkind >= 3) count("options.numeral_symbols");
         // option values need not be contiguous, and other entries may stand between the mappings
         bool sparse = r.chance(0.3), split = r.chance(0.4);
         int splitpos = (int)r.range(1, no - 1);
@@ -109,6 +115,8 @@ static Config gen_config(Rng &r)
         if(shape != 3 && shape != 4) { c.has_min = true; c.mn = lo; c.smin = num(lo); }
         if(shape != 2 && shape != 4) { c.has_max = true; c.mx = hi; c.smax = num(hi); }
     }
+    // rSpecial(x) in front of the range: a property followed by free text (neither ':' nor '=')
+    if(r.chance(0.2)) { c.meta += ":special"; c.meta.push_back('\0'); c.meta += r.chance(0.5) ? "disabled" : "random"; c.meta.push_back('\0'); count("meta.special_before_range"); }
     if(c.has_min) { c.meta += ":min"; c.meta.push_back('\0'); c.meta += "=" + c.smin; c.meta.push_back('\0'); }
     if(c.has_max) { c.meta += ":max"; c.meta.push_back('\0'); c.meta += "=" + c.smax; c.meta.push_back('\0'); }
     c.meta += ":documentation"; c.meta.push_back('\0'); c.meta += "=doc"; c.meta.push_back('\0');
